@@ -27,6 +27,7 @@ type CEnv struct {
 	scope  *types.Scope
 	hidden map[string]*types.Var
 	self   *Lemma
+	sink   *State // where side facts (window definitions, type facts) are recorded
 }
 
 func (v *Verifier) newEnv(pkg *types.Package) *CEnv {
@@ -35,8 +36,25 @@ func (v *Verifier) newEnv(pkg *types.Package) *CEnv {
 
 func (e *CEnv) at(st, old *State) *CEnv {
 	n := *e
-	n.st, n.old = st, old
+	n.st, n.old, n.sink = st, old, st
 	return &n
+}
+
+// atOld evaluates in the old state but records side facts in the current sink.
+func (e *CEnv) atOld() *CEnv {
+	n := *e
+	n.st = e.old
+	return &n
+}
+
+// flush moves facts recorded in a read-only state to the sink.
+func (e *CEnv) flush(from *State, mark int) {
+	if e.sink == nil || from == e.sink || len(from.pc) <= mark {
+		return
+	}
+	extra := append([]*Term(nil), from.pc[mark:]...)
+	from.pc = from.pc[:mark]
+	e.sink.pc = append(e.sink.pc, extra...)
 }
 func (e *CEnv) withLoopPre(s *State) *CEnv { return e }
 
@@ -106,7 +124,7 @@ func (e *CEnv) resolveType(ct *CType) types.Type {
 	switch name {
 	case "bstr":
 		return bstrType
-	case "mathint", "nat":
+	case "mathint", "nat", "funcval":
 		return nil
 	case "any":
 		return types.Universe.Lookup("any").Type()
@@ -163,6 +181,9 @@ func (e *CEnv) lookupIdent(name string) (CVal, bool) {
 		return val, true
 	}
 	v := e.v
+	if v.eng.ghostVars[name] {
+		return CVal{v.ghostVal(e.st, name), nil}, true
+	}
 	// hidden loop variables and locals in scope (loop invariants)
 	if e.hidden != nil {
 		if o, ok := e.hidden[name]; ok {
@@ -283,7 +304,10 @@ func (e *CEnv) tr(x *CExpr) CVal {
 		}
 		unsupported("contract: unknown identifier %s", x.Name)
 	case "old":
-		return e.at(e.old, e.old).tr(x.X)
+		mark := len(e.old.pc)
+		r := e.atOld().tr(x.X)
+		e.flush(e.old, mark)
+		return r
 	case "cond":
 		c := e.trBool(x.X)
 		a, b := e.unify(e.tr(x.Y), e.tr(x.Z))
@@ -318,6 +342,10 @@ func (e *CEnv) tr(x *CExpr) CVal {
 				vty = ty
 			}
 			c := v.fresh("q_"+qv.Name, srt)
+			if ty == bstrType {
+				// quantified byte strings range over well-formed values only
+				guards = append(guards, Le(IntLit(0), e.bLen(c)))
+			}
 			bvars = append(bvars, c)
 			inner = inner.bind(qv.Name, CVal{c, vty})
 		}
@@ -646,7 +674,7 @@ func (e *CEnv) trIndex(x *CExpr) CVal {
 	case *types.Slice:
 		i := e.intOf(idx)
 		_, h, _ := v.sliceHeap(e.st, u.Elem())
-		return CVal{Select(Select(h, SBase(base.T)), Add(SOff(base.T), i)), u.Elem()}
+		return CVal{Select(v.hsel(e.st, h, SBase(base.T)), Add(SOff(base.T), i)), u.Elem()}
 	case *types.Array:
 		return CVal{Select(base.T, e.intOf(idx)), u.Elem()}
 	case *types.Pointer:
@@ -655,7 +683,7 @@ func (e *CEnv) trIndex(x *CExpr) CVal {
 			unsupported("contract: index through pointer to %s", u.Elem())
 		}
 		_, h, _ := v.sliceHeap(e.st, at.Elem())
-		return CVal{Select(Select(h, base.T), e.intOf(idx)), at.Elem()}
+		return CVal{Select(v.hsel(e.st, h, base.T), e.intOf(idx)), at.Elem()}
 	case *types.Map:
 		_, _, _, hv := v.mapHeaps(e.st, u)
 		k := e.coerceTo(idx, u.Key())
@@ -801,7 +829,7 @@ func (e *CEnv) bytesOf(x CVal) *Term {
 	switch u := x.Ty.Underlying().(type) {
 	case *types.Slice:
 		_, h, _ := v.sliceHeap(e.st, u.Elem())
-		w := v.window(e.st, Select(h, SBase(x.T)), SOff(x.T), SLen(x.T))
+		w := v.window(e.st, v.hsel(e.st, h, SBase(x.T)), SOff(x.T), SLen(x.T))
 		return e.mkBStr(w, SLen(x.T))
 	case *types.Array:
 		w := v.window(e.st, x.T, IntLit(0), IntLit(u.Len()))
@@ -816,7 +844,7 @@ func (e *CEnv) bytesOf(x CVal) *Term {
 	case *types.Pointer:
 		if at, ok := u.Elem().Underlying().(*types.Array); ok {
 			_, h, _ := v.sliceHeap(e.st, at.Elem())
-			w := v.window(e.st, Select(h, x.T), IntLit(0), IntLit(at.Len()))
+			w := v.window(e.st, v.hsel(e.st, h, x.T), IntLit(0), IntLit(at.Len()))
 			return e.mkBStr(w, IntLit(at.Len()))
 		}
 	}
@@ -843,6 +871,7 @@ func (e *CEnv) bcat(a, b *Term) *Term {
 		}
 		if !found {
 			e.st.pc = append(e.st.pc, w.axiom)
+			e.st.pc = append(e.st.pc, w.lemmas...)
 		}
 		return e.mkBStr(w.c, Add(e.bLen(a), e.bLen(b)))
 	}
@@ -853,8 +882,10 @@ func (e *CEnv) bcat(a, b *Term) *Term {
 	body := Eq(Select(c, i), Ite(And(Le(IntLit(0), i), Lt(i, la)), Select(e.bArr(a), i),
 		Ite(And(Le(la, i), Lt(i, Add(la, lb))), Select(e.bArr(b), Sub(i, la)), zeroOfSort(es))))
 	ax := Forall([]*Term{i}, body, mk("select", es, c, i))
-	v.windows[key] = &winInfo{c, ax}
+	wi := &winInfo{c: c, axiom: ax, kind: "cat|" + Add(la, lb).String()}
+	v.windows[key] = wi
 	e.st.pc = append(e.st.pc, ax)
+	v.extLemmas(e.st, wi)
 	return e.mkBStr(c, Add(la, lb))
 }
 
@@ -980,8 +1011,11 @@ func (e *CEnv) trCall(x *CExpr) CVal {
 		return CVal{v.fromIface(e.st, a.T, ty), ty}
 	case "unchanged":
 		a := e.tr(x.Args[0])
-		o := e.at(e.old, e.old).tr(x.Args[0])
-		return CVal{Eq(e.bytesOf(a), e.at(e.old, e.old).bytesOf(o)), boolT}
+		mark := len(e.old.pc)
+		o := e.atOld().tr(x.Args[0])
+		ob := e.atOld().bytesOf(o)
+		e.flush(e.old, mark)
+		return CVal{Eq(e.bytesOf(a), ob), boolT}
 	case "mathint":
 		return CVal{e.intOf(e.tr(x.Args[0])), nil}
 	case "abs":
@@ -1005,6 +1039,51 @@ func (e *CEnv) trCall(x *CExpr) CVal {
 		}
 		k := int(i.T.Int.Int64())
 		return CVal{Eq(bvExtract(k, k, a.T), BVLit(1, 1)), boolT}
+	}
+	if gf, ok := v.eng.ghostFields[name]; ok {
+		h, key := e.ghostFieldHeap(gf, x.Args[0])
+		rty := e.resolveType(gf.Result)
+		return CVal{v.hsel(e.st, h, key), rty}
+	}
+	switch name {
+	case "funcof": // function value identity: funcof("pkg/path.Name")
+		if len(x.Args) != 1 || x.Args[0].Kind != "str" {
+			unsupported("contract: funcof needs a string literal")
+		}
+		id := v.d.typeID("func:" + x.Args[0].Name)
+		return CVal{IntLit(int64(-1000 - id)), nil}
+	case "bzeros":
+		n := e.intOf(e.tr(x.Args[0]))
+		return CVal{e.mkBStr(ConstArray(SArr(SInt, v.byteSort()), zeroOfSort(v.byteSort())), n), bstrType}
+	case "be", "le": // be(v, n): n-byte big/little-endian encoding of integer v (n constant)
+		val := e.tr(x.Args[0])
+		nn := e.tr(x.Args[1])
+		if !nn.T.isInt() {
+			unsupported("contract: %s needs a constant width", name)
+		}
+		n := int(nn.T.Int.Int64())
+		arr := ConstArray(SArr(SInt, v.byteSort()), zeroOfSort(v.byteSort()))
+		for i := 0; i < n; i++ {
+			sh := 8 * (n - 1 - i)
+			if name == "le" {
+				sh = 8 * i
+			}
+			var b *Term
+			if w, isBV := isBVSort(val.T.Sort); isBV {
+				if sh+7 < w {
+					b = bvExtract(sh+7, sh, val.T)
+				} else {
+					b = BVLit(0, 8)
+				}
+			} else {
+				b = Mod(Div(val.T, IntLitB(Pow2(sh))), IntLit(256))
+				if v.mode == "bv" {
+					b = int2bv(8, b)
+				}
+			}
+			arr = Store(arr, IntLit(int64(i)), b)
+		}
+		return CVal{e.mkBStr(arr, IntLit(int64(n))), bstrType}
 	}
 	// conversion to a named or basic type
 	if x.X.Kind == "ident" && len(x.Args) == 1 {
@@ -1067,7 +1146,7 @@ func (e *CEnv) packBytes(a CVal, n int, bigEndian bool) *Term {
 			return Select(a.T, IntLit(int64(i)))
 		case *types.Slice:
 			_, h, _ := e.v.sliceHeap(e.st, u.Elem())
-			return Select(Select(h, SBase(a.T)), Add(SOff(a.T), IntLit(int64(i))))
+			return Select(e.v.hsel(e.st, h, SBase(a.T)), Add(SOff(a.T), IntLit(int64(i))))
 		}
 		unsupported("contract: packBytes of %s", a.Ty)
 		return nil
@@ -1258,4 +1337,38 @@ func (e *CEnv) heapNameOf(a *CExpr) string {
 	}
 	unsupported("assigns all(%s): expected T.field", a)
 	return ""
+}
+
+func (v *Verifier) ghostVal(s *State, name string) *Term {
+	if t, ok := s.ghost[name]; ok {
+		return t
+	}
+	var t *Term
+	if s.epoch == 0 {
+		t = Const("ghost."+name+"@0", SInt)
+	} else {
+		t = Const(fmt.Sprintf("ghost.%s@e%d", name, s.epoch), SInt)
+	}
+	s.ghost[name] = t
+	if _, ok := v.entry.ghost[name]; !ok && s.epoch == 0 {
+		v.entry.ghost[name] = t
+	}
+	return t
+}
+
+// ghostFieldHeap: ghost fields are maps from object identity to a value.
+func (e *CEnv) ghostFieldHeap(gf *SpecFunc, arg *CExpr) (h, key *Term) {
+	v := e.v
+	rty := e.resolveType(gf.Result)
+	a := e.tr(arg)
+	switch a.T.Sort {
+	case SIface:
+		key = IVal(a.T)
+	case SInt:
+		key = a.T
+	default:
+		unsupported("ghost field %s of sort %s", gf.Name, a.T.Sort)
+	}
+	h = v.getHeap(e.st, "GF_"+gf.Name, SArr(SInt, e.sortOfC(rty)))
+	return
 }
